@@ -965,6 +965,7 @@ def _evaluate_Horner(mode_weights, function_values, ell_min_w, ell_max_w, mp_max
         # fₗₘ = Σₙ fₗₙ 𝔇ˡₙₘ(R) = ϵ₋ₘ zᵧᵐ {fₗ₀ Hˡ₀ₘ(R) + Σₙ₊ [fₗ₋ₙ Hˡ₋ₙₘ(R) / zₐⁿ + fₗₙ (-1)ⁿ Hˡₙₘ(R) zₐⁿ]}
         # fₗₙ = ϵ₋ₘ zᵧᵐ {fₗ₀ Hˡ₀ₘ(R) + Σₚₙ [fₗ₋ₙ Hˡ₋ₙₘ(R) / zₐⁿ + fₗₘ (-1)ⁿ Hˡₙₘ(R) zₐⁿ]}
         f = function_values[i_modes:i_modes+1]
+        f[0] = 0.0
         fₗₘ = mode_weights[i_modes]
 
         # raise NotImplementedError("Need separate arguments and logic for ell_min/max of H and of modes")
